@@ -439,3 +439,33 @@ def c18(tier):
             us.append(U(f"overcap:p{phys}:s{s_}", "overcap", "overcap", dict(phys=phys, s=s_, maxpf=3 if tier == "quick" else 5, fs=250 if s_ % 2 else 1,
                              gmax=4 if (tier != "quick" or phys == 1) else 2, dtmax=3 if (tier != "quick" or phys == 1) else 2), timeout=900))
     return us + [twin(us[0])]
+
+
+@prop("C15", functions=PIPE_FUNCS + RDF_FUNCS,
+      bounds={"quick": {"ser": "2 RDF 1.1 statements (rdflib alphabet), frame_size symbolic, TRIPLES/QUADS via flat_stream_to_file of both integrations (byte identity), GRAPHS via stream_frames (content identity: rdflib's path goes through a Dataset, a set)",
+                        "parse": "the bytes of every explored path through flat / grouped / to_graph of both integrations; plus reference-encoder streams (4 statements) with symbolic producer choices (redundant entries, explicit ids, eviction victim, no repeated terms), 4 framings, delimited or not"}},
+      outside="generalised / RDF-star terms (no rdflib counterpart); more statements",
+      explanation="H-DIFF-SER + H-DIFF-PARSE")
+def c15(tier):
+    from vpkg import alpha
+    us = []
+    alph = ["rS", "rP", "rO" if tier != "quick" else "rO5", "rG"]
+    for phys in (1, 2, 3):
+        for sp in range(len(alpha.RSPINES[phys])):
+            for s2 in range(3):
+                if tier == "quick" and sp != s2:
+                    continue
+                for p2 in range(2):
+                    for (nm, pf, dt, delim) in ((8, 4, 2, True), (9, 0, 2, False)):
+                        if tier == "quick" and (p2 == 0) != delim:
+                            continue
+                        entry = ("flat_file" if delim else "flat_frames") if phys != 3 else "stream_frames"
+                        fxs = [[s2, p2]] if not (phys == 3 and delim) else [[s2, p2, o2] for o2 in range(len(alpha.ALPH[alph[2]]))]
+                        for fx in fxs:
+                            us.append(U(f"diff:p{phys}:sp{sp}:f{'.'.join(map(str, fx))}:t{nm}-{pf}-{dt}:d{int(delim)}", "diff", "diff",
+                                        dict(phys=phys, spine=sp, fixed=fx, alph=alph, K=2, names=nm, prefixes=pf, datatypes=dt, delimited=delim, entry=entry,
+                                             setsem=(phys == 3)), timeout=600))
+    for phys in (1, 2, 3):
+        for pf in (0, 4):
+            us.append(U(f"diffref:p{phys}:pf{pf}", "diff", "diff_ref", dict(phys=phys, prefixes=pf), timeout=600))
+    return us + [twin(us[0]), twin(us[-1])]
